@@ -49,9 +49,9 @@ CODES = {1: ('Planar2DCode', (3, 3)), 2: ('Toric2DCode', (3, 3)), 3: ('Toric3DCo
 _INPUT_CACHE = {}
 
 
-def make_inputs(k, size_variant, direction, rate, decoder):
+def make_inputs(k, size_variant, direction, rate, decoder, dparams=None):
     """The inputs dict exactly as a DirectSimulation records it."""
-    key = (k, size_variant, tuple(direction), rate, decoder)
+    key = (k, size_variant, tuple(direction), rate, decoder, runner.canon(dparams or {}))
     if key not in _INPUT_CACHE:
         import panqec.codes as pc
         import panqec.decoders as pd
@@ -61,7 +61,7 @@ def make_inputs(k, size_variant, direction, rate, decoder):
         size = tuple(s + size_variant for s in size)
         code = getattr(pc, cls)(*size)
         em = PauliErrorModel(*direction)
-        dec = getattr(pd, decoder)(code, em, rate)
+        dec = getattr(pd, decoder)(code, em, rate, **(dparams or {}))
         sim = DirectSimulation(code, em, dec, rate, verbose=False)
         _INPUT_CACHE[key] = json.loads(json.dumps(sim._inputs, default=runner._js))
     return json.loads(json.dumps(_INPUT_CACHE[key]))
@@ -214,6 +214,8 @@ def rows_by_group(df, groups):
                     and json.dumps(row['code_params'], sort_keys=True) ==
                     json.dumps(inp['code']['parameters'], sort_keys=True)
                     and row['decoder'] == inp['decoder']['name']
+                    and json.dumps(row['decoder_params'], sort_keys=True) ==
+                    json.dumps(inp['decoder']['parameters'], sort_keys=True)
                     and abs(row['error_rate'] - inp['error_rate']) < 1e-9
                     and json.dumps(row['error_model_params'], sort_keys=True) ==
                     json.dumps(inp['error_model']['parameters'], sort_keys=True)):
@@ -234,7 +236,8 @@ def eval_case(case):
             fails.append({'relation': rel, 'detail': detail})
     groups = []
     for g in case['groups']:
-        inp = make_inputs(g['k'], g['size_variant'], g['direction'], g['error_rate'], g['decoder'])
+        inp = make_inputs(g['k'], g['size_variant'], g['direction'], g['error_rate'], g['decoder'],
+                          g.get('dparams'))
         groups.append({'k': g['k'], 'inputs': inp, 'trials': g['trials']})
     base = os.path.join(runner.scratch_dir('c15'), f'p{os.getpid()}')
     shutil.rmtree(base, ignore_errors=True)
@@ -332,8 +335,20 @@ def cases(draw, max_trials=60):
         sv = draw(st.integers(0, 1))
         rate = draw(st.sampled_from([0.05, 0.1, 0.15, 0.2, 0.123456]))
         direction = draw(st.sampled_from([[1 / 3, 1 / 3, 1 / 3], [0, 0, 1], [0.1, 0.1, 0.8]]))
-        decoder = 'BeliefPropagationOSDDecoder'
-        key = (k, sv, rate, tuple(direction))
+        # the decoder and its options are part of the point: two option sets
+        # of one decoder class are two rows
+        decoder, dparams = draw(st.sampled_from([
+            ('BeliefPropagationOSDDecoder', {}),
+            ('BeliefPropagationOSDDecoder', {'max_bp_iter': 10}),
+            ('BeliefPropagationOSDDecoder', {'max_bp_iter': 10, 'osd_order': 0}),
+            ('BeliefPropagationOSDDecoder', {'osd_order': 0}),
+            ('MemoryBeliefPropagationDecoder', {'max_bp_iter': 3}),
+            ('MemoryBeliefPropagationDecoder', {'max_bp_iter': 3, 'beta': 0.5})]))
+        if groups and draw(st.booleans()):
+            # same point as an earlier group, different decoder options
+            g0 = draw(st.sampled_from(groups))
+            k, sv, rate, direction = g0['k'], g0['size_variant'], g0['error_rate'], g0['direction']
+        key = (k, sv, rate, tuple(direction), decoder, runner.canon(dparams))
         if key in used:
             continue
         used.add(key)
@@ -344,7 +359,8 @@ def cases(draw, max_trials=60):
                       st.sampled_from([True, True, True, False])),
             min_size=n, max_size=n))
         groups.append({'k': k, 'size_variant': sv, 'direction': direction, 'error_rate': rate,
-                       'decoder': decoder, 'trials': [[t[0], t[1]] for t in trials]})
+                       'decoder': decoder, 'dparams': dparams,
+                       'trials': [[t[0], t[1]] for t in trials]})
     lay = [draw(layouts(groups))]
     if draw(st.booleans()):
         lay.append(draw(layouts(groups)))
